@@ -100,13 +100,14 @@ def itemsX : List Item → List XPiece
   | [] => []
   | i :: r => itemX i ++ itemsX r
 
-def elemX : Elem → List XPiece
-  | .plain i => itemX i
-  | .frame c b => [.sep true false, .tok (.frameHead c)] ++ itemsX b ++ [.sep true false, .tok .frameTerm]
-
-def elemsX : List Elem → List XPiece
-  | [] => []
-  | e :: r => elemX e ++ elemsX r
+mutual
+  def elemX : Elem → List XPiece
+    | .plain i => itemX i
+    | .frame c b => [.sep true false, .tok (.frameHead c)] ++ elemsX b ++ [.sep true false, .tok .frameTerm]
+  def elemsX : List Elem → List XPiece
+    | [] => []
+    | e :: r => elemX e ++ elemsX r
+end
 
 def blockX (b : Block) : List XPiece := [.sep true false, .tok (.blockHead b.code)] ++ elemsX b.body
 
@@ -186,21 +187,26 @@ theorem itemsX_specs : ∀ r : List Item, specs (itemsX r) = itemsToks r
   | [] => rfl
   | i :: r => by simp [itemsX, itemsToks, specs_append, itemX_specs i, itemsX_specs r]
 
-theorem elemX_erase : ∀ e : Elem, (elemX e).map erase = elemPieces e
-  | .plain i => itemX_erase i
-  | .frame c b => by simp [elemX, elemPieces, erase, XTok.chars, itemsX_erase b]
+mutual
+  theorem elemX_erase : ∀ e : Elem, (elemX e).map erase = elemPieces e
+    | .plain i => by simpa [elemX, elemPieces] using itemX_erase i
+    | .frame c b => by simp [elemX, elemPieces, erase, XTok.chars, elemsX_erase' b]
+  theorem elemsX_erase' : ∀ r : List Elem, (elemsX r).map erase = elemsPieces r
+    | [] => by simp [elemsX, elemsPieces]
+    | e :: r => by simp [elemsX, elemsPieces, elemX_erase e, elemsX_erase' r]
+end
 
-theorem elemX_specs : ∀ e : Elem, specs (elemX e) = elemToks e
-  | .plain i => itemX_specs i
-  | .frame c b => by simp [elemX, elemToks, specs, specs_append, XTok.spec, itemsX_specs b]
+mutual
+  theorem elemX_specs : ∀ e : Elem, specs (elemX e) = elemToks e
+    | .plain i => by simpa [elemX, elemToks] using itemX_specs i
+    | .frame c b => by simp [elemX, elemToks, specs, specs_append, XTok.spec, elemsX_specs b]
+  theorem elemsX_specs : ∀ r : List Elem, specs (elemsX r) = elemsToks r
+    | [] => by simp [elemsX, elemsToks, specs]
+    | e :: r => by simp [elemsX, elemsToks, specs_append, elemX_specs e, elemsX_specs r]
+end
 
-theorem elemsX_erase : ∀ r : List Elem, (elemsX r).map erase = (r.map elemPieces).flatten
-  | [] => rfl
-  | e :: r => by simp [elemsX, elemX_erase e, elemsX_erase r]
-
-theorem elemsX_specs : ∀ r : List Elem, specs (elemsX r) = elemsToks r
-  | [] => rfl
-  | e :: r => by simp [elemsX, elemsToks, specs_append, elemX_specs e, elemsX_specs r]
+theorem elemsX_erase (r : List Elem) : (elemsX r).map erase = (r.map elemPieces).flatten := by
+  rw [elemsX_erase', elemsPieces_eq]
 
 theorem blocksX_erase : ∀ d : List Block, (blocksX d).map erase = (d.map blockPieces).flatten
   | [] => rfl
@@ -757,7 +763,7 @@ theorem szElems_le : ∀ r : List Elem, szElems r + r.length ≤ 2 * W (elemsX r
     have := szItem_le i; have := szElems_le r
     simp only [szElems, szElem, elemsX, elemX, W_append, List.length_cons]; omega
   | .frame c b :: r => by
-    have := szItems_le b; have := szElems_le r
+    have := szElems_le b; have := szElems_le r
     simp only [szElems, szElem, elemsX, elemX, W, W_append, wtX, List.length_cons, List.cons_append, List.nil_append]; omega
 
 theorem szBlocks_le : ∀ d : List Block, szBlocks d + d.length ≤ 2 * W (blocksX d)
